@@ -212,6 +212,31 @@ Definition chk_enc_r (c : obj * res bytes) : bool * bool :=
    | None => true
    end).
 
+(* ---- attributes that [abs] does not look at but that decode() takes from the wire ----------------
+   [abs] maps an object to the spec message it stands for and ignores attributes that encode()
+   recomputes.  After a DECODE those attributes hold wire fields, and execute() reads one of them
+   (WriteMultipleCoilsRequest.byte_count is compared with (count + 7) // 8).  [wire_attrs_ok m o] says
+   they carry the value the specification's PDU of [m] has in that field:
+     WriteMultipleCoilsRequest.byte_count      = the byte-count byte          (read by execute())
+     Read{Coils,DiscreteInputs}Response.byte_count = the byte-count byte
+     ReportSlaveIdResponse.byte_count          = the byte-count byte
+     ReadDeviceInformationResponse.number_of_objects = the object-count byte
+   (count / byte_count of WriteMultipleRegistersRequest and write_count / write_byte_count of
+   ReadWriteMultipleRegistersRequest are already pinned by [abs], which requires them to be consistent
+   with the register list.) *)
+Definition wire_attrs_ok (m : msg) (o : obj) : bool :=
+  match m with
+  | MWriteCoilsReq _ cs =>
+      match o with OWriteCoilsReq _ _ bc => bc =? bit_byte_count (len cs) | _ => false end
+  | MReadCoilsRsp cs | MReadDiscreteRsp cs =>
+      match o with OBitsRsp _ _ bc => option_eqb Z.eqb bc (Some (bit_byte_count (len cs))) | _ => false end
+  | MReportSlaveIdRsp id _ =>
+      match o with OSlaveIdRsp _ _ bc => option_eqb Z.eqb bc (Some (len id + 1)) | _ => false end
+  | MReadDevIdRsp _ _ _ _ objs =>
+      match o with OMeiRsp _ _ _ _ _ n _ _ => n =? len objs | _ => false end
+  | _ => true
+  end.
+
 (* ---- C01: decode ---------------------------------------------------------------------- *)
 (* case = (server?, the spec message that was put on the wire (None for the malformed stream),
            the bytes, what _helper returned, what the public decode() returned) *)
@@ -229,7 +254,7 @@ Definition chk_dec_r (c : bool * option msg * bytes * res obj * res (option obj)
    match om with
    | Some m =>
        match obs with
-       | Ok o => cls_eqb (class_of o) (spec_class m) &&
+       | Ok o => cls_eqb (class_of o) (spec_class m) && wire_attrs_ok m o &&
                  match abs o with Some d => msg_matches m d | None => false end
        | Raise _ => false
        end &&
